@@ -4,6 +4,8 @@
 ID=$1; PATCH=$(readlink -f "$2"); TIER=${3:-quick}
 WT=/tmp/try-$ID-$$
 git -C /repo worktree add -q "$WT" HEAD || exit 3
+HEADPORT="$(dirname "$PATCH")/patch.head.diff"
+if ! git -C "$WT" apply --check "$PATCH" 2>/dev/null && [ -f "$HEADPORT" ]; then PATCH="$HEADPORT"; echo "using $HEADPORT"; fi
 if ! git -C "$WT" apply "$PATCH" 2>/dev/null; then
   # the seed may have been written against an older HEAD (hook commits landed since): 3-way apply
   if git -C "$WT" apply -3 "$PATCH"; then git -C "$WT" reset -q; else echo "PATCH DOES NOT APPLY"; git -C /repo worktree remove --force "$WT"; exit 3; fi
